@@ -1369,7 +1369,7 @@ func (s *PrintCtx) appendValue(val any) {
 		btoaS(s, z)
 
 	case []byte:
-		s.appendBytes(z)
+		s.pcQuoteValue(string(z))
 
 	case []string:
 		s.appendStringSlice(z)
